@@ -11,7 +11,7 @@ From Coq Require Import List NArith ZArith Lia Bool Arith.
 From Coq Require Import Init.Byte.
 From FFS Require Import Base.Res Base.Bytes Rlp.Model Rlp.Spec Rlp.Proofs.
 From FFS Require Import Crypto.Ecdsa.
-From FFS Require Import Tx.Model Tx.Spec Tx.Norm Tx.SignProofs Tx.RecoverModel Tx.SignProofs2 Tx.SignProofs3.
+From FFS Require Import Tx.Model Tx.Spec Tx.Norm Tx.SignProofs Tx.RecoverModel Tx.SignProofs2 Tx.SignProofs3 Tx.SignProofs4.
 Import ListNotations.
 
 (* 1. Wire format.  In every mode, for every transaction, every chain id >= 0 and every signer: the
@@ -161,6 +161,30 @@ Theorem C01_sign_recover_end_to_end :
 Proof. exact sign_recover_secp. Qed.
 Print Assumptions C01_sign_recover_end_to_end.
 
+(* 8. Theorem 7 with guards on the inputs only: every integer field below 2^256 in magnitude (the
+      property's quantifier), data of at most 2^31-1024 bytes, 20-byte destination ([in_range]); the two
+      size guards of theorem 7 are consequences. *)
+Theorem C01_sign_recover_end_to_end_in_range :
+  forall (o : group_ops), laws o -> (n o < SM.two256)%Z ->
+  forall (H : bytes -> bytes), (forall x, length (H x) = 32%nat) ->
+  forall (nonce : Z -> bytes -> nat -> Z) (fuel : nat)
+         (m : mode) (t : tx) (d : N) (chain : Z) (out : bytes),
+  (1 <= Z.of_N d < n o)%Z -> (0 <= chain <= 2 ^ 53)%Z -> in_range t ->
+  sign_mode m t (Some (KeyPairSign H (secp_sign_direct o nonce fuel) d)) chain = Ok out ->
+  let fm := format_of m t in
+  let c := Z.to_N chain in
+  let pre := spec_preimage fm (norm t) c in
+  exists v r s,
+    SM.SignDirect o nonce fuel (Z.of_N d) (H pre) = Ok {| SM.sV := v; SM.sR := r; SM.sS := s |} /\
+    (1 <= r < n o)%Z /\ (1 <= s < n o)%Z /\ (2 * s <= n o)%Z /\
+    ecdsa_verify o (pub o (Z.of_N d)) (SM.hash_to_z (H pre)) r s = true /\
+    (v_legacy v ->
+       out = spec_signed fm (norm t) c (y_of v) (Z.to_N r) (Z.to_N s) /\
+       RecoverRawTransaction H (secp_RecoverDirect o H) out chain
+       = Ok (secp_address o H d, recovered_tx fm (norm t), pre)).
+Proof. exact sign_recover_secp_in_range. Qed.
+Print Assumptions C01_sign_recover_end_to_end_in_range.
+
 (* non-vacuity: an EIP-155 transfer on chain 2^53 with a constant signer meets every hypothesis of
    theorem 1, and the result is the 9-element list with V = 2^54 + 35 + 1 *)
 Example C01_nonvacuous :
@@ -208,7 +232,7 @@ Example C01_nonvacuous_end_to_end :
   let t := mkTx (Some 9%Z) (Some 20000000000%Z) None None (Some 21000%Z) (Some (repeat x35 20)) (Some 1%Z) None in
   let nonce : Z -> bytes -> nat -> Z := fun _ _ _ => 2%Z in
   let chain := (2 ^ 53)%Z in
-  laws Toy.ops /\ (n Toy.ops < SM.two256)%Z /\ (1 <= Z.of_N 5 < n Toy.ops)%Z /\ to_ok t = true /\
+  laws Toy.ops /\ (n Toy.ops < SM.two256)%Z /\ (1 <= Z.of_N 5 < n Toy.ops)%Z /\ to_ok t = true /\ in_range t /\
   short (sp_data (payload_of LegacyEIP155 t chain)) /\
   exists out v r s,
     sign_mode LegacyEIP155 t (Some (KeyPairSign toyH (secp_sign_direct Toy.ops nonce 1) 5%N)) chain = Ok out /\
@@ -217,7 +241,9 @@ Example C01_nonvacuous_end_to_end :
     v_legacy v.
 Proof.
   cbv zeta. split; [exact Toy.toy_laws|]. split; [reflexivity|]. split; [vm_compute; split; congruence|].
-  split; [reflexivity|]. split; [unfold short; vm_compute; reflexivity|].
+  split; [reflexivity|].
+  split; [unfold in_range, below256, two256, data_max; cbn; repeat split; lia|].
+  split; [unfold short; vm_compute; reflexivity|].
   eexists _, _, _, _. split; [vm_compute; reflexivity|]. split; [vm_compute; discriminate|].
   split; [vm_compute; reflexivity|]. vm_compute. auto.
 Qed.
